@@ -273,6 +273,81 @@ func (c *ctx) writesOf(key string, fd *ast.FuncDecl, shared map[string]bool) []w
 	return out
 }
 
+// atomicsOf lists calls of mutating sync/atomic methods on fields of long-lived objects or package variables.
+func (c *ctx) atomicsOf(key string, fd *ast.FuncDecl, shared map[string]bool) []write {
+	var out []write
+	mutating := map[string]bool{"Store": true, "Add": true, "Swap": true, "CompareAndSwap": true, "And": true, "Or": true}
+	ast.Inspect(fd.Body, func(n ast.Node) bool {
+		call, ok := n.(*ast.CallExpr)
+		if !ok {
+			return true
+		}
+		sel, ok := call.Fun.(*ast.SelectorExpr)
+		if !ok || !mutating[sel.Sel.Name] {
+			return true
+		}
+		tv, ok := c.info.Types[sel.X]
+		if !ok {
+			return true
+		}
+		nt := c.namedOf(tv.Type)
+		if nt == nil || nt.Obj().Pkg() == nil || nt.Obj().Pkg().Path() != "sync/atomic" {
+			return true
+		}
+		target := ""
+		switch x := ast.Unparen(sel.X).(type) {
+		case *ast.Ident:
+			if v, ok := c.info.Uses[x].(*types.Var); ok && v.Parent() == c.pkg.Scope() {
+				target = "global " + x.Name
+			}
+		case *ast.SelectorExpr:
+			if tv2, ok := c.info.Types[x.X]; ok {
+				if n2 := c.namedOf(tv2.Type); n2 != nil && n2.Obj().Pkg() == c.pkg && shared[n2.Obj().Name()] {
+					target = n2.Obj().Name() + "." + x.Sel.Name
+				}
+			}
+		}
+		if target == "" {
+			return true
+		}
+		var args []string
+		for _, a := range call.Args {
+			args = append(args, exprString(a))
+		}
+		out = append(out, write{key, target + "." + sel.Sel.Name + "(" + strings.Join(args, ", ") + ")", call.Pos()})
+		return true
+	})
+	return out
+}
+
+// sharedObjectsOf lists the package-level variables a function mentions whose type is a pointer to
+// (or a value of) a struct type of this package: one object shared by every execution.
+func (c *ctx) sharedObjectsOf(key string, fd *ast.FuncDecl) []write {
+	var out []write
+	seen := map[string]bool{}
+	ast.Inspect(fd.Body, func(n ast.Node) bool {
+		id, ok := n.(*ast.Ident)
+		if !ok {
+			return true
+		}
+		v, ok := c.info.Uses[id].(*types.Var)
+		if !ok || v.Parent() != c.pkg.Scope() || seen[id.Name] {
+			return true
+		}
+		nt := c.namedOf(v.Type())
+		if nt == nil || nt.Obj().Pkg() != c.pkg {
+			return true
+		}
+		if _, isStruct := nt.Underlying().(*types.Struct); !isStruct {
+			return true
+		}
+		seen[id.Name] = true
+		out = append(out, write{key, id.Name + " " + v.Type().String(), id.Pos()})
+		return true
+	})
+	return out
+}
+
 var execRoots = []string{"Template.Execute", "Template.ExecuteWriter", "Template.ExecuteWriterUnbuffered", "Template.ExecuteBytes",
 	"Template.ExecuteBlocks",
 	// invoked through reflection on values the engine itself puts into the context
@@ -315,11 +390,22 @@ func genEffects(c *ctx) (string, string) {
 		reach[k] = true
 		stack = append(stack, edges[k]...)
 	}
-	var ws []write
+	var ws, as, objs []write
 	for k, fd := range c.funcs {
 		if fd.Body != nil && reach[k] {
 			ws = append(ws, c.writesOf(k, fd, shared)...)
+			as = append(as, c.atomicsOf(k, fd, shared)...)
+			objs = append(objs, c.sharedObjectsOf(k, fd)...)
 		}
+	}
+	for _, l := range [][]write{as, objs} {
+		l := l
+		sort.Slice(l, func(i, j int) bool {
+			if l[i].fn != l[j].fn {
+				return l[i].fn < l[j].fn
+			}
+			return l[i].target < l[j].target
+		})
 	}
 	sort.Slice(ws, func(i, j int) bool {
 		if ws[i].fn != ws[j].fn {
@@ -350,6 +436,26 @@ func genEffects(c *ctx) (string, string) {
 		fmt.Fprintf(&sb, "\n  (%q, %q)", w.fn, w.target)
 	}
 	sb.WriteString("]\n\n")
+	emit := func(doc, name string, l []write) {
+		sb.WriteString("/-- " + doc + " -/\ndef " + name + " : List (String × String) := [")
+		seen := map[string]bool{}
+		first := true
+		for _, w := range l {
+			id := w.fn + "|" + w.target
+			if seen[id] {
+				continue
+			}
+			seen[id] = true
+			if !first {
+				sb.WriteString(",")
+			}
+			first = false
+			fmt.Fprintf(&sb, "\n  (%q, %q)", w.fn, w.target)
+		}
+		sb.WriteString("]\n\n")
+	}
+	emit("(function, call) of every mutating sync/atomic method call reachable from the execution entry points on a field of a long-lived object or on a package variable", "execAtomicWrites", as)
+	emit("(function, variable and type) of every package-level variable holding a struct of this package (or a pointer to one) that a function reachable from the execution entry points mentions: an object shared by all executions", "execSharedObjects", objs)
 	fmt.Fprintf(&sb, "/-- number of functions reachable from the execution entry points (own CHA call graph) -/\ndef execReachable : Nat := %d\n\n", len(rs))
 	sb.WriteString("/-- sanity anchors: functions that must be in the reachable set if the call graph is not truncated -/\ndef execReachableAnchors : List (String × Bool) := [")
 	anchors := []string{"nodeDocument.Execute", "tagForNode.Execute", "tagIncludeNode.Execute", "variableResolver.resolve", "filterCall.Execute",
